@@ -15,13 +15,11 @@
    exact reduced rational `(q num den)` / `NaN` / `+Inf` / `-Inf`, recursively
    inside arrays and documents; Missing prints as null.
 
-   PROVISIONAL: the matcher is MiniOps.mini_match (equality on scalar
-   operands) until Model/Match.v is merged; the Go generator restricts the
-   filters of `find` cases accordingly. *)
-From Lungo.Model Require Import Collection MiniOps.
+   The matcher is the full model Model/Match.v. *)
+From Lungo.Model Require Import Collection Match.
 Open Scope string_scope.
 
-Definition sort_match := mini_match.
+Definition sort_match := Match.
 
 (* ---------------- canonical form of a value ---------------- *)
 
